@@ -1,5 +1,8 @@
 """Source of MANIFEST.json (bin/mkmanifest). A property appears as a check only if checks/<id>.py exists."""
 
+# checks registered in MANIFEST.json (a check file may exist before it is ready)
+READY = ['C04']
+
 HOOK_COMMITS = ['6abf118d3b', '23b4e66deb', '9ed5be8760']
 
 ENGINES = [
